@@ -31,7 +31,7 @@ class IdAutoSep(AutoSeparatedPacketSerializer[bytes, bytes]):
     def deserialize(self, data):
         if self.ascii_only and any(b >= 128 for b in data):
             raise DeserializeError("non-ascii")
-        return bytes(data)
+        return data         # the very object the framing layer hands over (an alias of a reused buffer would show)
 
 
 class IdFixed(FixedSizePacketSerializer[bytes, bytes]):
@@ -45,7 +45,7 @@ class IdFixed(FixedSizePacketSerializer[bytes, bytes]):
     def deserialize(self, data):
         if self.ascii_only and any(b >= 128 for b in data):
             raise DeserializeError("non-ascii")
-        return bytes(data)
+        return data         # see IdAutoSep.deserialize
 
 
 class BytesPassThrough(AbstractPacketSerializer[bytes, bytes]):
@@ -57,7 +57,12 @@ class BytesPassThrough(AbstractPacketSerializer[bytes, bytes]):
 
 
 def canon_packet(p) -> bytes:
-    if isinstance(p, (bytes, bytearray, memoryview)):
+    if isinstance(p, memoryview):
+        try:
+            return bytes(p)
+        except ValueError:
+            return b"<released memoryview>"
+    if isinstance(p, (bytes, bytearray)):
         return bytes(p)
     if isinstance(p, str):
         try:
@@ -112,7 +117,24 @@ def _event(fn):
         return [1, code, bytes(exc.remaining_data)], False
     except RuntimeError:
         return [2], True
-    return [0, canon_packet(pkt)], False
+    return [0, _Raw(pkt)], False
+
+
+class _Raw:
+    """a delivered packet kept as the object the consumer returned; canonicalised only once the whole run is over
+    (the application still holds its packets then: a packet aliasing a receive buffer that is reused would differ)"""
+    __slots__ = ("obj",)
+
+    def __init__(self, obj):
+        self.obj = obj
+
+
+def _canon_rounds(rounds):
+    for r in rounds:
+        for ev in r[1]:
+            if len(ev) == 2 and isinstance(ev[1], _Raw):
+                ev[1] = canon_packet(ev[1].obj)
+    return rounds
 
 
 class DigitsConverter:
@@ -148,7 +170,7 @@ def run_copy(serializer, chunks, converter=None):
         rounds.append([len(ch), evs, bytes(consumer.get_buffer())])
         if crashed:
             break
-    return rounds
+    return _canon_rounds(rounds)
 
 
 def run_buffered(serializer, sizehint, chunks, converter=None):
@@ -188,7 +210,7 @@ def run_buffered(serializer, sizehint, chunks, converter=None):
                 break
         if crashed:
             break
-    return rounds
+    return _canon_rounds(rounds)
 
 
 def run_impl(inp):
